@@ -10,7 +10,7 @@ Line protocol for the CAIT model (drivers `driver_c10` / `driver_c11`).
   path  := e | <i>.<j>...          (child indices)
   match := M <root:path|-> <nmap> (<pp> <sp>)* <nexp> (<key:x> <path>)* <nbind> (<tbl:v|f|c> <key:x> <id:x> <path>)* <nconf>
 
-  request `match <ptree> <stree>`          -> `ok <n> match*` | `unmodelled`
+  request `match <ptree> <stree>`          -> `ok <n> match*`
   request `embed <ptree> <stree> <match>`  -> `ok 1` | `ok 0`    (checkEmbedding on a match of the REAL code)
 -/
 namespace Pedal.Cait
@@ -128,10 +128,8 @@ def handleMatch (ts : List String) : String :=
     let (s, ts) ← parseTree (ts.length + 1) ts
     if ts.isEmpty then pure (p, s) else none) with
   | some (p, s) =>
-    if unsupported p then "unmodelled"
-    else
-      let r := findMatches p s
-      " ".intercalate (["ok", toString r.length] ++ r.map encMatch)
+    let r := findMatches p s
+    " ".intercalate (["ok", toString r.length] ++ r.map encMatch)
   | none => "bad-request"
 
 def handleEmbed (ts : List String) : String :=
